@@ -230,12 +230,12 @@ func idpFacts(b *strings.Builder, root *pkgFiles) {
 	for _, fn := range sortedFileNames(root) {
 		for _, d := range root.files[fn].Decls {
 			fd, ok := d.(*ast.FuncDecl)
-			if !ok || fd.Body == nil {
+			if !ok || fd.Body == nil || fd.Name.Name == "writeXML" || fd.Name.Name == "xmlToBytes" {
 				continue
 			}
 			docs := map[string]bool{}   // variables holding etree.NewDocument()
-			writes := map[string]bool{} // … that are written
-			set := map[string]bool{}    // … whose WriteSettings = xmlWriteSettings
+			direct := map[string]bool{} // … written with etree's own WriteTo* (bypassing the package's writer)
+			helper := map[string]bool{} // … written through writeXML / xmlToBytes
 			ast.Inspect(fd.Body, func(nd ast.Node) bool {
 				switch x := nd.(type) {
 				case *ast.AssignStmt:
@@ -243,30 +243,30 @@ func idpFacts(b *strings.Builder, root *pkgFiles) {
 						if ce, ok := x.Rhs[0].(*ast.CallExpr); ok && exprStr(ce.Fun) == "etree.NewDocument" {
 							docs[exprStr(x.Lhs[0])] = true
 						}
-						if se, ok := x.Lhs[0].(*ast.SelectorExpr); ok && se.Sel.Name == "WriteSettings" && exprStr(x.Rhs[0]) == "xmlWriteSettings" {
-							set[exprStr(se.X)] = true
-						}
 					}
 				case *ast.CallExpr:
 					if se, ok := x.Fun.(*ast.SelectorExpr); ok && strings.HasPrefix(se.Sel.Name, "WriteTo") {
-						writes[exprStr(se.X)] = true
+						direct[exprStr(se.X)] = true
+					}
+					if f := exprStr(x.Fun); (f == "writeXML" || f == "xmlToBytes") && len(x.Args) >= 1 {
+						helper[exprStr(x.Args[0])] = true
 					}
 				}
 				return true
 			})
 			var names []string
 			for v := range docs {
-				if writes[v] {
+				if direct[v] || helper[v] {
 					names = append(names, v)
 				}
 			}
 			sort.Strings(names)
 			for _, v := range names {
-				ws = append(ws, site{fn + ":" + fd.Name.Name + ":" + v, set[v]})
+				ws = append(ws, site{fn + ":" + fd.Name.Name + ":" + v, helper[v] && !direct[v]})
 			}
 		}
 	}
-	b.WriteString("/-- every place package saml serialises an etree document, and whether it installs `xmlWriteSettings` -/\ndef xmlWriteSites : List (String × Bool) := [")
+	b.WriteString("/-- every place package saml serialises an etree document, and whether it goes through the package's writer (writeXML / xmlToBytes) -/\ndef xmlWriteSites : List (String × Bool) := [")
 	for i, s := range ws {
 		if i > 0 {
 			b.WriteString(", ")
@@ -274,6 +274,28 @@ func idpFacts(b *strings.Builder, root *pkgFiles) {
 		fmt.Fprintf(b, "(%s, %v)", leanStr(s.name), s.ok)
 	}
 	b.WriteString("]\n\n")
+	// the package's writer: installs xmlWriteSettings and wraps the destination in crEscaper
+	var wx []string
+	if fd := findFunc(root, "util.go", "writeXML"); fd != nil {
+		for _, st := range fd.Body.List {
+			wx = append(wx, srcText2(root.fset, st))
+		}
+	} else {
+		fail("writeXML not found")
+	}
+	writeStrList(b, "writeXMLBody", wx)
+	var ce []string
+	if fd := findFunc(root, "util.go", "Write"); fd != nil {
+		ast.Inspect(fd.Body, func(nd ast.Node) bool {
+			if c, ok := nd.(*ast.CallExpr); ok && exprStr(c.Fun) == "bytes.ReplaceAll" {
+				ce = append(ce, srcText(root.fset, c))
+			}
+			return true
+		})
+	} else {
+		fail("crEscaper.Write not found")
+	}
+	writeStrList(b, "crEscaperReplace", ce)
 
 	// MakeAssertionEl: encryption parameters and the error handling of getSPEncryptionCert
 	var encParams []string
